@@ -72,9 +72,9 @@ Inductive res (A : Type) := Ok (a : A) | Err (f : family).
 Arguments Ok {A} a. Arguments Err {A} f.
 
 (* comparison operators as they appear in translated source *)
-Inductive cmp := CLe | CLt | CGe | CGt | CEq.
+Inductive cmp := CLe | CLt | CGe | CGt | CEq | CNe.
 Definition cmp_z (c : cmp) (a b : Z) : bool :=
-  match c with CLe => Z.leb a b | CLt => Z.ltb a b | CGe => Z.geb a b | CGt => Z.gtb a b | CEq => Z.eqb a b end.
+  match c with CLe => Z.leb a b | CLt => Z.ltb a b | CGe => Z.geb a b | CGt => Z.gtb a b | CEq => Z.eqb a b | CNe => negb (Z.eqb a b) end.
 
 Fixpoint mismatches_from {A} (bad : A -> bool) (i : nat) (l : list A) : list nat :=
   match l with
